@@ -320,6 +320,7 @@ pub mod derivedprobe {
 
     #[contract]
     #[derive(Ownable, Upgradable)]
+    #[migratable(with_type = Option<Address>)]
     pub struct DerivedProbe;
 
     #[contractimpl]
@@ -330,7 +331,12 @@ pub mod derivedprobe {
     }
 
     impl DerivedProbe {
-        const fn run_migration(_env: &Env, _migration_data: ()) {}
+        /// a migration that does something: it may hand the contract to a new owner named in the migration data
+        fn run_migration(env: &Env, new_owner: Option<Address>) {
+            if let Some(o) = new_owner {
+                interfaces::set_owner(env, &o);
+            }
+        }
     }
 }
 pub use derivedprobe::DerivedProbe;
